@@ -34,7 +34,7 @@ type e2eCase struct {
 	Router  string `json:"router"`
 	Method  string `json:"method"`
 	Name    string `json:"name"`   // x -> child 1, y -> child 2, anything else: unknown
-	Script  string `json:"script"` // ok | error | trailers-only | cancel
+	Script  string `json:"script"` // ok | error | trailers-only | cancel | quiet (header sent, then parked until the caller has read it)
 	Msgs    int    `json:"msgs"`
 	MsgSeed int64  `json:"msg_seed"`
 }
@@ -109,7 +109,20 @@ func (w *e2eWorld) childHandler(id int) grpc.StreamHandler {
 			stream.SetTrailer(p.trailer)
 			return p.final
 		}
-		stream.SetHeader(p.header)
+		if p.script == "quiet" {
+			// the child sends its header at once and then stays quiet until the caller has looked at it
+			if err := stream.SendHeader(p.header); err != nil {
+				return err
+			}
+			select {
+			case <-stream.Context().Done():
+				return status.FromContextError(stream.Context().Err()).Err()
+			case <-p.gate:
+			case <-time.After(8 * time.Second):
+			}
+		} else {
+			stream.SetHeader(p.header)
+		}
 		for i, m := range p.resp {
 			if err := stream.SendMsg(m); err != nil {
 				return err
@@ -266,7 +279,21 @@ func (w *e2eWorld) runE2E(mon *lib.Monitor, e entry, c e2eCase) error {
 			return err
 		}
 		st.CloseSend()
-		gotHeader, _ = st.Header()
+		if c.Script == "quiet" && target != 0 {
+			// the caller reads the header while the child is parked between its header and its first message
+			hc := make(chan metadata.MD, 1)
+			go func() { h, _ := st.Header(); hc <- h }()
+			select {
+			case gotHeader = <-hc:
+				close(p.gate)
+			case <-time.After(4 * time.Second):
+				close(p.gate)
+				gotHeader = <-hc
+				viol("header-held-back", "the child has sent its stream header and is quiet: the header must reach the caller now, not with the first message", "Header() returns the child's header while the child is parked", "Header() returned only after the child was released (4s)")
+			}
+		} else {
+			gotHeader, _ = st.Header()
+		}
 		for {
 			m, _ := newMessage(md.Output().FullName())
 			rerr = st.RecvMsg(m)
@@ -346,7 +373,7 @@ func (w *e2eWorld) runE2E(mon *lib.Monitor, e entry, c e2eCase) error {
 }
 
 func runE2ECases(f lib.Flags, res *lib.Result) {
-	mon := res.Monitor("grpc-end-to-end", "every generated router registered on one real grpc.Server (bufconn), children = real grpc connections to generic script-playing servers, caller = real grpc connection; per service x method x {registered name ok, second client error, trailers-only error (streams), unknown name, caller cancels mid-stream (streams)}: exactly one child call on the right client with an equal request; responses, status, stream header and trailer unaltered; NotFound touches no client; caller cancellation reaches the child")
+	mon := res.Monitor("grpc-end-to-end", "every generated router registered on one real grpc.Server (bufconn), children = real grpc connections to generic script-playing servers, caller = real grpc connection; per service x method x {registered name ok, second client error, trailers-only error (streams), unknown name, caller cancels mid-stream (streams), quiet child (streams): the child sends its header and parks, the caller must get the header while it is parked}: exactly one child call on the right client with an equal request; responses, status, stream header and trailer unaltered; NotFound touches no client; caller cancellation reaches the child")
 	w, err := newE2EWorld()
 	if err != nil {
 		mon.Error = err.Error()
@@ -372,7 +399,7 @@ func runE2ECases(f lib.Flags, res *lib.Result) {
 			}
 			scripts := []sc{{"x", "ok", 2}, {"y", "error", 1}, {"zz", "ok", 1}}
 			if md.IsStreamingServer() {
-				scripts = append(scripts, sc{"y", "trailers-only", 0}, sc{"x", "cancel", 3}, sc{"y", "ok", 0})
+				scripts = append(scripts, sc{"y", "trailers-only", 0}, sc{"x", "cancel", 3}, sc{"y", "ok", 0}, sc{"x", "quiet", 1})
 			}
 			for r := 0; r < reps; r++ {
 				for _, s := range scripts {
